@@ -21,13 +21,15 @@ def sh(cmd, cwd=None, env=None, timeout=3600):
     return p.returncode, "\n".join(l for l in p.stdout.splitlines() if "auto_activate_base" not in l)
 
 
-def detect(ids, all_checks=False):
+def detect(ids, all_checks=False, record=False):
     rc, out = sh("git -C /repo status --porcelain --untracked-files=no")
     if out.strip():
         print("refusing: /repo has local modifications to tracked files"); return 2
     man = json.load(open(os.path.join(VERIF, "MANIFEST.json")))
     claimed = {c["property_id"]: c for c in man["checks"]}
     res = {}
+    recp = os.path.join(VERIF, "seeded", "detection.json")
+    rec = json.load(open(recp)) if os.path.isfile(recp) else {}
     for sid in ids:
         d = os.path.join(VERIF, "seeded", sid)
         meta = json.load(open(os.path.join(d, "meta.json")))
@@ -47,11 +49,20 @@ def detect(ids, all_checks=False):
                     res[sid] = "DETECTED" if rc == 1 and v else ("analysis-error" if rc == 2 else "missed")
                     det = [l.strip() for l in out.splitlines() if l.strip().startswith(("rule=", "construct="))][:4]
                     line.append(f"{p}:{res[sid]} {' '.join(det)}")
+                    pairs = []
+                    ls = [l.strip() for l in out.splitlines()]
+                    for i, l in enumerate(ls):
+                        if l.startswith("rule=") and i + 1 < len(ls) and ls[i + 1].startswith("construct="):
+                            pairs.append(l[5:] + " | " + ls[i + 1][10:])
+                    rec[sid] = {"property": p, "outcome": res[sid].lower(), "rules": pairs[:4],
+                                "cmd": f"git -C /repo apply seeded/{sid}/patch.diff; {PY} sa/check.py --property {p} --tier quick; git -C /repo checkout -- ."}
                 elif rc != 0:
                     line.append(f"{p}:also-exit-{rc}")
             print(f"{sid}: " + " | ".join(line))
         finally:
             sh("git -C /repo checkout -- .")
+    if record:
+        json.dump(dict(sorted(rec.items())), open(recp, "w"), indent=1)
     n = sum(1 for v in res.values() if v == "DETECTED")
     print(f"detected {n}/{len(res)}")
     return 0
@@ -144,7 +155,7 @@ if __name__ == "__main__":
     if a and a[0] == "detect":
         allc = "--all-checks" in a
         ids = [x for x in a[1:] if not x.startswith("--")] or sorted(os.path.basename(p) for p in glob.glob(os.path.join(VERIF, "seeded", "*")) if os.path.isdir(p))
-        sys.exit(detect(ids, allc))
+        sys.exit(detect(ids, allc, "--record" in a))
     if a and a[0] == "confirm":
         sys.exit(confirm(a[1], a[2]))
     print(__doc__)
